@@ -5,8 +5,8 @@
   the subject of `Props/C05.lean`, the `usize` statistics of `C20.reachable_statsOk`).  What remains
   of the clause is liveness of the request path: **in every state of a node in server mode** —
   whatever datagrams it has been fed before — a ping request from any address with a non-zero port
-  is answered, in the very iteration in which it arrives, with a ping response carrying the
-  request's transaction id.
+  that the configured request filter allows is answered, in the very iteration in which it arrives,
+  with a ping response carrying the request's transaction id.
 -/
 import MainlineModel.Props.C18
 import MainlineModel.Lemmas.TimeLemmas
@@ -27,15 +27,19 @@ theorem maybeAdd_serverMode (c : Core) (src : Addr) (version : Option Bytes) (ro
 
 /-- the server's answer to a ping: a ping response -/
 theorem handleRequest_ping (c : Core) (hs : c.serverMode = true) (env : Env) (src : Addr) (ro : Bool)
-    (version : Option Bytes) (req : Request) (hp : req.rtype = .ping) :
+    (version : Option Bytes) (req : Request) (hp : req.rtype = .ping) (ha : c.allow req src = true) :
     ∃ i, (handleRequest c env src ro version req).2.1 = some (.response (.ping i)) := by
   have h1 := maybeAdd_serverMode c src version ro req env.now
   have h2 := C18.verifySelfPing_serverMode (maybeAddNodeFromRequest c src version ro req env.now) src req env.now
-  unfold handleRequest serveRequest
+  have h3 : (verifySelfPing (maybeAddNodeFromRequest c src version ro req env.now) src req env.now).1.allow = c.allow :=
+    (verifySelfPing_allow _ src req env.now).trans (maybeAdd_allow c src version ro req env.now)
+  unfold handleRequest
+  simp only [ha, Bool.not_true, Bool.false_eq_true, ite_false]
+  unfold serveRequest
   rw [h2, h1, hs]
   simp only [ite_true]
   unfold Server.handleRequest
-  simp only [Bool.not_true, Bool.false_eq_true, ite_false, hp]
+  simp only [h3, ha, Bool.not_true, Bool.false_eq_true, ite_false, hp]
   exact ⟨_, rfl⟩
 
 /-- **A server always answers a ping.**  For every node state in server mode, every clock value and
@@ -44,7 +48,7 @@ theorem handleRequest_ping (c : Core) (hs : c.serverMode = true) (env : Env) (sr
     up in the same iteration. -/
 theorem server_answers_ping (a : Actor) (hs : a.core.serverMode = true) (env : Env) (m : Message) (src : Addr)
     (req : Request) (hm : m.mtype = .request req) (hp : req.rtype = .ping) (hport : src.port ≠ 0)
-    (msg : Option ApiMsg) :
+    (hallow : a.core.allow req src = true) (msg : Option ApiMsg) :
     ∃ i l, (a.step env (some (m, src)) msg).out = a.out ++ l ∧
       ∃ x ∈ l, x.1 = src ∧ x.2.tid = m.tid ∧ x.2.mtype = .response (.ping i) := by
   -- the socket hands every request up
@@ -57,7 +61,7 @@ theorem server_answers_ping (a : Actor) (hs : a.core.serverMode = true) (env : E
   obtain ⟨ro, rc, _, _⟩ := recvPhase_time a env.now (some (m, src))
   generalize ha1 : (a.recvPhase env.now (some (m, src))).1 = a1 at ro rc hrecv
   have hs1 : a1.core.serverMode = true := by rw [rc]; exact hs
-  obtain ⟨i, hi⟩ := handleRequest_ping a1.core hs1 env src m.readOnly m.version req hp
+  obtain ⟨i, hi⟩ := handleRequest_ping a1.core hs1 env src m.readOnly m.version req hp (by rw [rc]; exact hallow)
   -- the reply is appended to the log in `handle_incoming_message`
   have hinc : ∃ l1, (a1.handleIncoming env (some (m, src))).1.out = a1.out ++ l1 ∧
       ∃ x ∈ l1, x.1 = src ∧ x.2.tid = m.tid ∧ x.2.mtype = .response (.ping i) := by
